@@ -54,7 +54,7 @@ class C17(PropCheck):
             'non-trivial = >=2 models with a tie straddling the cut or differing n_sim/weights. Distinct by full input.')
     trusted = ('scikit-learn LinearRegression is an oracle: only "its (intercept_, coef_) solve the normal equations within 1e-9" is checked per case',
                'numpy.linalg.lstsq (centred data) as the oracle slope for the model side; numpy.argsort order is validated inside Coq (permutation + ascending)',
-               'binary64 subtraction summaries - observed is modelled as exact (generator keeps |values| < 2**10 with <= 53-bit mantissas on a coarse grid or recomputes X exactly: cases where the float difference is inexact are compared with tolerance)',
+               'binary64 arithmetic is modelled exactly over Q: summaries - observed and the dot product are compared with tolerances (1e-12 formula, 1e-9 normal equations, 1e-8 oracle slope); generator keeps |values| <= 4 so nothing overflows',
                'the list/Q model (Num/Adjust.v) and the matrix model (Num/AdjustMx.v) describe the same formula theta - X.b; their identification is by inspection')
 
     # ------------------------------------------------------------------------------------------
